@@ -591,4 +591,69 @@ func sortStrings(s []string) {
 	}
 }
 
-func main() { mc.Main("C13", scenarios) }
+// twoConnections: two client/server pairs of real endpoints in one process;
+// the handshakes interleave at every statement of the key-derivation helpers.
+func twoConnections(cfg *mc.Config, emit func(mc.Scenario)) {
+	seed := cfg.Seed
+	emit(mc.Scenario{Name: "two-connections", Bound: 1, Weight: 200, Run: func(c *mc.Ctx) {
+		rnd.Install(rnd.New(seed, "c13-two"))
+		type ep struct {
+			role string
+			w    *wire.Conn
+			out  []byte
+			want []byte
+			got  []byte
+			err  error
+		}
+		var eps []*ep
+		for i := 0; i < 2; i++ {
+			cw, sw := wire.Pipe(fmt.Sprintf("client%d", i), fmt.Sprintf("server%d", i))
+			co, so := o4h.Pattern(byte('C'+i), 0, 40), o4h.Pattern(byte('S'+i), 0, 40)
+			eps = append(eps, &ep{role: "client", w: cw, out: co, want: so}, &ep{role: "server", w: sw, out: so, want: co})
+		}
+		res := sched.Run(c, sched.Options{PreemptKinds: []string{"stmt"}, NoEarlyTimers: true, MaxSteps: 3_000_000}, func() {
+			s := sched.Cur()
+			for i, e := range eps {
+				e := e
+				s.Spawn(fmt.Sprintf("%s%d", e.role, i/2), func() {
+					conn, err := realConn(e.role, e.w)
+					if err != nil {
+						e.err = err
+						return
+					}
+					if _, err := conn.Write(e.out); err != nil {
+						e.err = err
+						return
+					}
+					buf := make([]byte, 64)
+					for len(e.got) < len(e.want) {
+						n, err := conn.Read(buf)
+						e.got = append(e.got, buf[:n]...)
+						if err != nil {
+							e.err = err
+							return
+						}
+					}
+				})
+			}
+		})
+		if len(res.Panics) > 0 {
+			fail(c, "no-panic", "two-connections/panic", "%s", res.Panics[0])
+			return
+		}
+		for i, e := range eps {
+			if e.err != nil || !bytes.Equal(e.got, e.want) {
+				fail(c, "stream", "two-connections/stream", "%s of connection %d: read %d/%d bytes (first difference at %d), err=%v, quiescent=%v: concurrent connections influenced each other", e.role, i/2, len(e.got), len(e.want), firstDiff(e.got, e.want), e.err, res.Quiescent)
+				return
+			}
+		}
+		c.Observe("ok", len(eps))
+	}})
+}
+
+func main() {
+	mc.Main("C13", func(cfg *mc.Config, emit func(mc.Scenario)) {
+		scenarios(cfg, emit)
+		twoConnections(cfg, emit)
+	})
+}
